@@ -50,6 +50,13 @@ func GenDaemon(prop string, seed uint64, tier string) *DaemonScenario {
 	}
 	use["clients"] = true
 	switch prop {
+	case "C01":
+		// requests landing in the very instants a round is produced, with wide schedule points
+		sc.Yield = YieldPlan{Seed: r.U64(), PerMill: []int{60, 150, 300}[r.Intn(3)], MaxNs: []int{50_000, 2_000_000, 5_000_000}[r.Intn(3)]}
+		sc.Net.BaseUs, sc.Net.JitterUs = 200, []int{100, 2000}[r.Intn(2)]
+		for k := r.Range(3, 8); k > 0; k-- {
+			add(Act{AtMs: at(), Kind: "rand_spray", Node: r.Intn(sc.N), A: int64([]int{100, 500, 2000}[r.Intn(3)]), B: int64(r.Range(5, 25))})
+		}
 	case "C13":
 		return genCrash(seed, tier)
 	case "C10":
